@@ -1,8 +1,133 @@
 import PyresampleModel.Model.C01
+import PyresampleModel.Props.C18
 
 /-
-  C01 — property theorems (stub: none yet).
+  C01 — property theorems: one grid map behind every accessor.
 -/
 namespace PyresampleModel.C01
+open PyresampleModel.Grid PyresampleModel.C18
+
+/-- **the grid**: column `c` is centred at `xmin + (c + 1/2)·dx`, row `r` at `ymax - (r + 1/2)·dy`
+(also for fractional array coordinates) -/
+theorem proj_centre (g : Grid) (c r : Rat) :
+    g.projX c = g.x0 + (c + 1/2) * g.dx ∧ g.projY r = g.y1 - (r + 1/2) * g.dy := by
+  constructor
+  · simp only [Grid.projX, Grid.uplx]; ring
+  · simp only [Grid.projY, Grid.uply]; ring
+
+/-- **array ↔ projection conversions are mutual inverses** (non-degenerate pixel sizes) -/
+theorem arr_proj_inverse (g : Grid) (hx : g.dx ≠ 0) (hy : g.dy ≠ 0) (c r x y : Rat) :
+    g.arrX (g.projX c) = c ∧ g.projX (g.arrX x) = x ∧ g.arrY (g.projY r) = r ∧ g.projY (g.arrY y) = y := by
+  refine ⟨?_, ?_, ?_, ?_⟩
+  · simp only [Grid.arrX, Grid.projX]; field_simp; ring
+  · simp only [Grid.arrX, Grid.projX]; field_simp; ring
+  · simp only [Grid.arrY, Grid.projY]; field_simp; ring
+  · simp only [Grid.arrY, Grid.projY]; field_simp; ring
+
+/-- the 1-D vectors hold the centre coordinates of every column / row -/
+theorem vectors_get (g : Grid) (c r : Nat) (hc : c < g.w) (hr : r < g.h) :
+    (xvec g)[c]? = some (g.x0 + ((c : Rat) + 1/2) * g.dx) ∧ (yvec g)[r]? = some (g.y1 - ((r : Rat) + 1/2) * g.dy) := by
+  simp only [xvec, yvec, List.getElem?_map, List.getElem?_range hc, List.getElem?_range hr, Option.map_some,
+    (proj_centre g c r).1, (proj_centre g c r).2, and_self]
+
+/-- **all pixel → lon/lat accessors are the same map**, whatever the inverse projection is -/
+theorem lonlat_accessors_agree {β} (inv : Rat × Rat → β) (g : Grid) (r c : Nat) (hc : c < g.w) (hr : r < g.h) :
+    getLonlat inv g r c = inv (g.x0 + ((c : Rat) + 1/2) * g.dx, g.y1 - ((r : Rat) + 1/2) * g.dy) ∧
+    colrow2lonlat inv g c r = some (getLonlat inv g r c) ∧
+    lonlatFromArrayCoords inv g c r = getLonlat inv g r c := by
+  obtain ⟨hx, hy⟩ := vectors_get g c r hc hr
+  refine ⟨?_, ?_, rfl⟩
+  · simp only [getLonlat, (proj_centre g c r).1, (proj_centre g c r).2]
+  · simp only [colrow2lonlat, hx, hy, getLonlat, (proj_centre g c r).1, (proj_centre g c r).2]
+
+/-! ### dask blocks -/
+
+theorem aux_axis_flat : ∀ (chunks : List Nat) (off : Nat),
+    (axisSlices chunks off).flatMap (fun s => List.range' s.1 (s.2 - s.1)) = List.range' off chunks.sum := by
+  intro chunks
+  induction chunks with
+  | nil => intro off; simp [axisSlices]
+  | cons c cs ih =>
+    intro off
+    simp only [axisSlices, List.flatMap_cons, ih, List.sum_cons]
+    have : off + c - off = c := by omega
+    rw [this, ← List.range'_append_1]
+
+theorem aux_hstack_row (g : Grid) (r0 r1 : Nat) (colSl : List (Nat × Nat)) :
+    hstack (r1 - r0) (colSl.map (fun cs => genBlock g r0 r1 cs.1 cs.2)) =
+      (List.range' r0 (r1 - r0)).map (fun (r : Nat) =>
+        (colSl.flatMap (fun cs => List.range' cs.1 (cs.2 - cs.1))).map (fun (c : Nat) => (g.projX (c : Rat), g.projY (r : Rat)))) := by
+  apply List.ext_getElem?
+  intro i
+  simp only [hstack, List.getElem?_map, List.flatMap_map]
+  by_cases hi : i < r1 - r0
+  · rw [List.getElem?_range hi, List.getElem?_range' hi]
+    simp only [Option.map_some, Option.some.injEq, List.map_flatMap]
+    apply List.flatMap_congr
+    intro cs _
+    simp only [genBlock, List.getD_eq_getElem?_getD, List.getElem?_map, List.getElem?_range' hi, Option.map_some,
+      Option.getD_some]
+  · rw [List.getElem?_eq_none (by simp; omega), List.getElem?_eq_none (by simp; omega)]; rfl
+
+/-- **chunking is invisible**: for every partition of the rows and of the columns into dask chunks
+(any number, any sizes, ragged or single-element), the per-block generated coordinates assembled in
+order equal the coordinates of the whole area -/
+theorem blocks_assemble (g : Grid) (rowChunks colChunks : List Nat)
+    (hr : rowChunks.sum = g.h) (hc : colChunks.sum = g.w) :
+    assembleBlocks g rowChunks colChunks = coords2d g := by
+  simp only [assembleBlocks, aux_hstack_row, aux_axis_flat colChunks 0, hc]
+  have : ∀ (f : Nat → List (Rat × Rat)),
+      (axisSlices rowChunks 0).flatMap (fun rs => (List.range' rs.1 (rs.2 - rs.1)).map f) =
+        (List.range' 0 rowChunks.sum).map f := by
+    intro f
+    rw [← aux_axis_flat rowChunks 0, List.map_flatMap]
+  rw [this, hr]
+  simp only [coords2d, xvec, yvec, List.map_map, List.range_eq_range']
+  rfl
+
+/-- **data_slice commutes**: coordinates computed for a slice are that slice of the whole array -/
+theorem slice_commutes (g : Grid) (ys xs : PySlice) :
+    coordsSliced g ys xs = (ys.apply (coords2d g)).map (fun row => xs.apply row) := by
+  simp only [coordsSliced, coords2d, PySlice.apply, List.length_map, List.map_drop, List.map_take, List.map_map]
+  congr 2
+  apply List.map_congr_left
+  intro y _
+  simp [Function.comp]
+
+/-! ### integer index lookups (shared with C18) -/
+
+/-- the returned pixel contains the point (points inside the closed extent) -/
+theorem index_contains {g : Grid} (hg : WF g) (x y : Rat) (r c : Nat)
+    (hx0 : g.x0 ≤ x) (hx1 : x ≤ g.x1) (hy0 : g.y0 ≤ y) (hy1 : y ≤ g.y1)
+    (h : areaCell g x y = some (r, c)) :
+    c < g.w ∧ r < g.h ∧ g.x0 + c * g.dx ≤ x ∧ x ≤ g.x0 + (c + 1) * g.dx ∧
+    g.y1 - (r + 1) * g.dy ≤ y ∧ y ≤ g.y1 - r * g.dy :=
+  area_some_contains hg x y r c hx0 hx1 hy0 hy1 h
+
+/-- arrays mask, scalars reject, every point beyond the documented 0.02-pixel edge tolerance -/
+theorem outside_masked_and_rejected {g : Grid} (hg : WF g) (x y : Rat)
+    (h : x < g.x0 - 2/100 * g.dx ∨ g.x1 + 2/100 * g.dx < x ∨ y < g.y0 - 2/100 * g.dy ∨ g.y1 + 2/100 * g.dy < y) :
+    areaCell g x y = none ∧ scalarLookup g x y = none := by
+  have h1 := area_none_outside hg x y h
+  refine ⟨h1, ?_⟩
+  rw [areaCell_def] at h1
+  simp only [scalarLookup]
+  by_cases hm : ((maskedInt (g.arrY y) g.h).1 || (maskedInt (g.arrX x) g.w).1) = true
+  · have : ((maskedInt (g.arrX x) g.w).1 || (maskedInt (g.arrY y) g.h).1) = true := by
+      rw [Bool.or_comm]; exact hm
+    rw [if_pos this]
+  · rw [if_neg hm] at h1; cases h1
+
+/-- the scalar lookup rejects exactly when the array lookup masks -/
+theorem scalar_rejects_iff_masked (g : Grid) (x y : Rat) :
+    scalarLookup g x y = none ↔ areaCell g x y = none := by
+  rw [areaCell_def]
+  simp only [scalarLookup]
+  rw [Bool.or_comm]
+  by_cases hm : ((maskedInt (g.arrY y) g.h).1 || (maskedInt (g.arrX x) g.w).1) = true
+  · simp [hm]
+  · simp [hm]
+
+example : assembleBlocks ⟨0, 0, 4, 2, 4, 2⟩ [1, 1] [3, 1] = coords2d ⟨0, 0, 4, 2, 4, 2⟩ := by decide +kernel
 
 end PyresampleModel.C01
